@@ -9,6 +9,7 @@
 //	ss <op>...   real stream tsTables (two shards): w<segment id> | v (write to shard B) | ff (flusher step) |
 //	             q:<lo>-<hi> | e:<lo>-<hi> (getBlockScanner over both shards, scanned / closed early) | a<k> | r<k> | c
 //	sx adds:     fe (flush round with nothing to flush: empty introduction)
+//	tq <op>...   real trace tsTable + trace-id query pipeline: w | fa | q<o|f|e|p>:<batch>:<trace ids> | a<k> | r<k> | c
 //	st <writers> <readers> <batches>   concurrent smoke run with the real loops (supporting exploration only)
 //
 // Output: one dump per op, joined by " | ".
@@ -28,6 +29,7 @@ import (
 	"github.com/apache/skywalking-banyandb/banyand/internal/verifdrv/drv"
 	"github.com/apache/skywalking-banyandb/banyand/measure"
 	"github.com/apache/skywalking-banyandb/banyand/stream"
+	"github.com/apache/skywalking-banyandb/banyand/trace"
 )
 
 var (
@@ -275,6 +277,79 @@ func runStream(ops []string) string {
 	return strings.Join(out, " | ")
 }
 
+// ---- real trace tsTable + real trace-id query pipeline (Pull / Release), scan outcomes success / error ----
+
+func runTrace(ops []string) string {
+	caseNo++
+	root := filepath.Join(scratch, fmt.Sprintf("q%d", caseNo))
+	if err := os.MkdirAll(root, 0o755); err != nil {
+		panic(err)
+	}
+	defer os.RemoveAll(root)
+	v := trace.VC05TraceNew(root)
+	defer func() {
+		if r := recover(); r != nil {
+			panic(r)
+		}
+		v.Shutdown()
+	}()
+	var out []string
+	for _, op := range ops {
+		res := ""
+		switch {
+		case op == "c":
+			if v.Closed() {
+				res = "closed "
+			} else {
+				v.Close()
+			}
+		case op == "w":
+			if v.Closed() {
+				res = "closed "
+			} else {
+				v.Write()
+			}
+		case op == "fa":
+			if v.Closed() {
+				res = "closed "
+			} else {
+				v.FlushAll()
+			}
+		case len(op) > 3 && op[0] == 'q' && op[2] == ':':
+			// q<mode>:<batch size>:<id,id,..>   mode o|f|e|p
+			if v.Closed() {
+				res = "closed "
+				break
+			}
+			f := strings.SplitN(op[3:], ":", 2)
+			bs, _ := strconv.Atoi(f[0])
+			var ids []string
+			if len(f) > 1 {
+				for _, id := range strings.Split(f[1], ",") {
+					if id != "" {
+						ids = append(ids, id)
+					}
+				}
+			}
+			res = "q=" + v.Query(op[1:2], ids, bs) + " "
+		case strings.HasPrefix(op, "a"):
+			k, _ := strconv.Atoi(op[1:])
+			if !v.Acquire(k) {
+				res = "nil "
+			}
+		case strings.HasPrefix(op, "r"):
+			k, _ := strconv.Atoi(op[1:])
+			if !v.Release(k) {
+				res = "nil "
+			}
+		default:
+			return "bad-op"
+		}
+		out = append(out, res+v.Dump())
+	}
+	return strings.Join(out, " | ")
+}
+
 // ---- banyand/internal/snapshot ----
 
 type toySnap struct {
@@ -418,6 +493,8 @@ func handle(f []string) string {
 		return runSidx(f[1:])
 	case "ss":
 		return runStream(f[1:])
+	case "tq":
+		return runTrace(f[1:])
 	case "st":
 		// supporting exploration: st <writers> <readers> <batches per writer>
 		if len(f) != 4 {
